@@ -245,6 +245,15 @@ def whole_query_cases(backend):
             ("jobscript-same-name-other-script", chain(js("a", ["# a"], []), js("a", ["# other"], []))),
             ("jobscript-self-dependency", chain(js("a", ["# a"], ["a"]))),
         ]
+    # a collection declaration meant for ANOTHER backend (incl. the other CMS tier), the query using that collection
+    for ob in ("atlas", "cms_aod", "cms_miniaod"):
+        if ob == backend:
+            continue
+        od = {"metadata_type": ckind_name(ob), "name": "ForeignThings", "include_files": ["x.h"], "container_type": "std::vector<Thing>", "element_type": "Thing", "contains_collection": True}
+        if ob != "atlas":
+            od["element_pointer"] = False
+        cases.append((f"md-collection-for-other-backend:{ob}", f"MetaData(ds, {od!r}).Select(lambda e: e.ForeignThings('A').Count())"))
+        cases.append((f"md-collection-for-other-backend-unused:{ob}", f"MetaData(ds, {od!r}).Select(lambda e: {c}.Count())"))
     cases.append(("md-inject-unknown-field", f"MetaData(ds, {{'metadata_type': 'inject_code', 'name': 'b', 'no_such_field': ['x']}}).Select(lambda e: {c}.Count())"))
     return cases
 
